@@ -1,9 +1,11 @@
 #!/bin/bash
 # try_seed.sh <seed-id> <check-id> [tier]: apply a seeded change to /repo, run one check, undo the change.
+# patch_head.diff (the seed ported to the current HEAD of /repo) is preferred over patch.diff (made against the pinned commit).
 ID=$1; CHK=$2; TIER=${3:-quick}
+P=/verif/seeded/$ID/patch.diff; [ -f /verif/seeded/$ID/patch_head.diff ] && P=/verif/seeded/$ID/patch_head.diff
 cd /repo || exit 2
 git diff --quiet || { echo "/repo has uncommitted changes"; exit 2; }
-git apply /verif/seeded/$ID/patch.diff 2>/dev/null || patch -p1 --fuzz=3 -s < /verif/seeded/$ID/patch.diff || { git checkout -- .; find . -name '*.rej' -o -name '*.orig' | xargs rm -f; echo "patch does not apply to current /repo"; exit 2; }
+git apply $P 2>/dev/null || patch -p1 --fuzz=3 -s < $P || { git checkout -- .; find . -name '*.rej' -o -name '*.orig' | xargs rm -f; echo "patch does not apply to current /repo"; exit 2; }
 find . -name '*.orig' | xargs rm -f
 cd /verif && bin/check $CHK --tier $TIER > work/try_${ID}_${CHK}.log 2>&1; rc=$?
 git -C /repo checkout -- .
